@@ -261,9 +261,10 @@ func generateIsolated(s *Stream, seed int64, n int, thorough bool) ([]Case, int,
 	progress := dir + "/progress"
 	casesFile := dir + "/cases.json"
 	var skip []string
+	var crashed []Case // what is known of the items that killed a worker, should the cap be hit
 	hangs := map[string]bool{}
 	_ = hangs
-	for attempt := 0; attempt < 40; attempt++ {
+	for attempt := 0; attempt < 60; attempt++ {
 		args := []string{"-worker", "-stream", s.Name, "-seed", fmt.Sprint(seed), "-n", fmt.Sprint(n),
 			"-skip", strings.Join(skip, ","), "-progress", progress, "-cases", casesFile}
 		if thorough {
@@ -351,8 +352,16 @@ func generateIsolated(s *Stream, seed int64, n int, thorough bool) ([]Case, int,
 		} else {
 			skip = append(skip, parts[1])
 		}
+		human := ""
+		if len(parts) == 3 {
+			human = strings.ReplaceAll(parts[2], "\\n", "\n")
+		}
+		guardLastSkippedHung = hung
+		crashed = append(crashed, crashCase(human))
 	}
-	return nil, len(skip), fmt.Errorf("worker crashed on more than 40 items")
+	// too many items kill the worker: the stream is cut short, but what was seen is reported
+	// (every one of them is a concrete input on which the process died)
+	return crashed, len(skip), nil
 }
 
 func runStream(s *Stream, modelBin string, seed int64, n int, thorough bool, corpus []string) (*Summary, error) {
